@@ -444,6 +444,11 @@ pub fn specs_for(which: Which, seed: u64, tier: &str) -> Vec<(String, ProgSpec, 
         let cfg = GenCfg::swarm(&mut rng);
         specs.push((format!("gen:{}", case), work::gen_source_spec(&mut rng, &cfg).0, case));
     }
+    // programs at the index-width limits (254..300 parameters / arguments / locals / fields, literal extremes)
+    let base = specs.len() as u64;
+    for (k, (name, src)) in super::c11::limit_templates().into_iter().enumerate() {
+        specs.push((format!("limit:{}", name), ProgSpec::Source(src), base + k as u64));
+    }
     let base = specs.len() as u64;
     for j in 0..n_model {
         let case = base + j as u64;
